@@ -68,7 +68,7 @@ def apply_step(be, S, e, n, seed):
     elif k == "postselect":
         pr = S.postselect(be.pauli(e["p"]), e["b"])
         d = dyadic(pr)
-        out["prob"] = d if d is not None else [7, 0]
+        out["prob"] = d if d is not None else [7, 20]
     else:
         raise ValueError(k)
     out["post"] = be.p_state(S)
